@@ -62,7 +62,7 @@ int main(int argc, char **argv) {
     }
     Stats st;
     Rng r((uint64_t) env_long("VERIF_SEED", 1) * 7777 + shard);
-    int H = thorough() ? 20000 : 2000;
+    int H = thorough() ? 200000 : 2000;
     for (int h = 0; h < H; h++) {
         std::string trace;
         int dim = 1 + r.below(h % 3 == 0 ? 4 : 40);
